@@ -10,6 +10,31 @@ sys.path.insert(0, HERE)
 CHECKS = {}   # filled by vf/props modules that exist: id -> (category, text, note, technique, design_ref)
 
 TABLE = {
+    "C09": ("exploration",
+            "The real ParserX86ATT.parse_line / parse_file are run on text rendered with random layout from random instruction ASTs and mixed files; the result is compared field by field with the AST the text was rendered from (line number, verbatim text, classification, mnemonic, every operand field).",
+            "Trusted: the AST generators and renderers in vf/asmgen.py; declared don't-care classes (displacement-only operands first, upper-case 0X) are listed in the evidence.",
+            "runtime monitoring: render/parse round trip against the generator's AST",
+            "C09"),
+    "C10": ("exploration",
+            "As C09 for ParserAArch64: scalar/vector/SVE/predicate registers, lists and ranges, immediates incl. floating point, condition codes, labels, memory references with offsets, extended/shifted index registers, pre/post-index; files with '//' comments, labels, directives.",
+            "Trusted: vf/asmgen.py; directive parameters are not judged.",
+            "runtime monitoring: render/parse round trip against the generator's AST",
+            "C10"),
+    "C15": ("exploration",
+            "Exhaustive in both tiers over all entries and load/store tables of the 17 non-empty models and both ISA databases parsed independently from the YAML: micro-op shape, port membership, numeric fields, comparison with what the real loader built, real average_port_pressure on every entry, real --db-check counts for all models; one rendered instruction per entry through the real parser and semantics (every entry in thorough, a seed-rotated sixth in quick) and through the real CLI.",
+            "Trusted: independent ruamel safe-load of the model files, vf/entry_render.py; rendered lines that do not parse or match another entry are counted, not judged.",
+            "runtime monitoring: exhaustive per-entry shape oracle + costing every entry through the real path",
+            "C15"),
+    "C16": ("exploration",
+            "The real KernelDG is run on the same kernel through its single-process and its multi-process path (threshold and cpu_count patched) for worker counts 1,2,3,5,16,len+7 while a wrapper inside each forked worker injects seeded delays and logs completion order; dictionaries must be equal incl. order; three true CLI runs must be byte-identical apart from the timestamp. Evidence lists the distinct completion orders observed.",
+            "Trusted: delay injection only around a worker's enumeration; fork start method; complete searches only.",
+            "runtime monitoring with schedule perturbation: sequential vs multi-process result equality under injected delays",
+            "C16"),
+    "C20": ("exploration",
+            "The real import_benchmark_output (API, in-process CLI and true subprocess) is run on generated ibench/asmbench files (all documented operand codes of both ISAs, fresh/existing/TP-LT-containing mnemonics, measurements around the snapping points, corrupted asmbench blocks); the emitted stream is parsed back as plain YAML and judged against the README naming convention and the 5% snapping rules (don't-care band between 4.7% and 5.6%).",
+            "Trusted: the decoder table from README.rst in vf/props/c20.py.",
+            "runtime monitoring: generated inputs, emitted model parsed back and compared with a reference decoder/snapper",
+            "C20"),
     "C14": ("exploration",
             "Metamorphic runtime check: every rotation of a kernel is analysed by the real pipeline from a fresh parse and the reported loop-carried dependency sets (members mapped back to original instruction indices, latencies) and their maximum are compared across all offsets, for the shipped corpus (<= 40 lines) on shipped models and for generated register, store/load and write-back kernels on synthetic and shipped models.",
             "Trusted: the rotation/mapping code in vf/props/c14.py; complete LCD search (timeout -1) per rotation.",
